@@ -46,7 +46,9 @@ func TestC05RegisterVersusRemoveNode(t *testing.T) {
 			pid := eventlogger.PipelineID(fmt.Sprintf("p%d", round))
 			var regErr, rmErr error
 			if !simul.Burst(20*time.Second,
-				func() { regErr = b.RegisterPipeline(eventlogger.Pipeline{PipelineID: pid, EventType: et, NodeIDs: ids}) },
+				func() {
+					regErr = b.RegisterPipeline(eventlogger.Pipeline{PipelineID: pid, EventType: et, NodeIDs: ids})
+				},
 				func() { rmErr = b.RemoveNode(ctx, eventlogger.NodeID(ns[victim].Name)) }) {
 				fmt.Printf("\nINCONCLUSIVE-MARK burst did not return\n")
 				t.Skip("inconclusive")
